@@ -18,14 +18,19 @@ META = {
                  "on every run by a fail-closed ast translator + kernel-checked correspondence batches on call sequences",
     "level_text": "Machine-checked Coq theorems, for all dimensions / coordinates / angles, about the Gallina definitions that "
                   "vf/translate/c12.py regenerates from aabb.py, geometry.py, rotations.py, vector.py and maths.py on every run "
-                  "(each function once, over a bare operations record; theorems over R): box algebra (projection in the closed box "
-                  "and realising the l1/l2/linf distance, contained => 0, union, intersection = overlap, do_intersect <=> overlap "
-                  "extents >= 0, of_points tight, pad), cross/det expansions, Lagrange, Rodrigues rotation is an isometry fixing "
-                  "its axis and composing additively, 3-point angle symmetric and in [0,pi], signed/2D angles antisymmetric, "
-                  "cotan*tan = 1, circumcentre equidistant, principal_angle/angle_diff congruent mod 2pi and in range, roots^n = "
-                  "c/|c|; and a frame theorem: every function of the five files (event table regenerated from the source) leaves "
-                  "argument arrays, other boxes and numpy's error register as found, on return and on raise. The model is tied to "
-                  "the running code by kernel-evaluated correspondence batches (exact through Q, binary64 with tolerance for sqrt).",
+                  "(each function once, over a bare operations record; theorems over R). FULL: box algebra (projection in the closed "
+                  "box and realising the l1/l2/linf distance with minimality, contained => 0, half-open containment, union = least "
+                  "box containing both, intersection = overlap, do_intersect <=> overlap extents >= 0 <=> common point, of_points "
+                  "tight, pad monotone, wrong dimension raises), cross/det expansions and Lagrange, rotate_2d and Rodrigues rotation "
+                  "isometric / fixing the axis, 3-point angle symmetric and in [0,pi] (given atan2's contract), 2D angle "
+                  "antisymmetric, cotan * |BAxBC| = BA.BC, circumcentre equidistant and coplanar (whenever the function returns), "
+                  "principal_angle / angle_diff congruent mod 2pi and in range, roots^n = c/|c|; the frame theorem: every function of "
+                  "the five files (event table regenerated from the source) leaves argument arrays, other boxes and numpy's error "
+                  "register as found on return and on raise, boxes own fresh arrays. PARTIAL (guard named in the theorem): rotation "
+                  "additivity for angles that are 0 or outside the code's own 1e-12 cut-off; signed-angle antisymmetry when the "
+                  "reference normal is not in the plane of the two vectors (C12_signed_angle_guard_is_needed shows the guard is "
+                  "necessary). The model is tied to the running code by kernel-evaluated correspondence batches on call sequences "
+                  "(exact through Q, binary64 with tolerance for sqrt).",
     "level_note": "Trusted: Coq kernel + vm_compute (PrimFloat evaluated, never reasoned about); the translator (its output is "
                   "also run against the implementation); the harness (generators, driver canonicalisation, np.shares_memory / "
                   "np.geterr observations); atan2/cos/sin/cmath.polar are a numerical shell: angles enter the theorems as the "
@@ -947,13 +952,64 @@ def still_fails(prog, key):
     return any(k == key for _, k, _ in oracle_prog(prog, ob))
 
 
-def shrink(prog, key):
+def op_uses(op):
+    """(array slots read, box slots read, box slot defined)"""
+    k = op[0]
+    if k == "box":
+        return [op[2], op[3]], [], op[1]
+    if k == "ofpts":
+        return list(op[2]), [], op[1]
+    if k == "pad_v":
+        return [op[2]], [op[1]], None
+    if k in ("pad_s", "is_empty", "span", "center"):
+        return [], [op[1]], None
+    if k in ("contains", "project", "distance"):
+        return [op[2]], [op[1]], None
+    if k in ("union", "inter"):
+        return [], [op[2], op[3]], op[1]
+    if k == "do_intersect":
+        return [], [op[1], op[2]], None
+    if k == "fn":
+        return list(op[2]), [], None
+    return [], [], None
+
+
+def slice_prog(ops, i):
+    """the calls op i depends on: definitions of its arrays / boxes (and every earlier pad of those boxes, seterr)"""
+    need_a, need_b = set(), set()
+    a, b, _ = op_uses(ops[i])
+    need_a |= set(a)
+    need_b |= set(b)
+    keep = {i}
+    for j in range(i - 1, -1, -1):
+        o = ops[j]
+        if o[0] == "seterr":
+            keep.add(j)
+        elif o[0] == "arr":
+            if o[1] in need_a:
+                keep.add(j)
+        else:
+            ua, ub, d = op_uses(o)
+            if (d is not None and d in need_b) or (o[0] in ("pad_s", "pad_v") and o[1] in need_b):
+                keep.add(j)
+                need_a |= set(ua)
+                need_b |= set(ub)
+    return [ops[j] for j in sorted(keep)]
+
+
+def shrink(prog, key, budget=25):
     ops = list(prog["ops"])
+    sl = slice_prog(ops, len(ops) - 1)
+    if len(sl) < len(ops) and still_fails({"ops": sl}, key):
+        ops = sl
     changed = True
-    while changed and len(ops) > 1:
+    while changed and len(ops) > 1 and budget > 0:
         changed = False
         for i in range(len(ops) - 1, -1, -1):
+            if budget <= 0:
+                break
             cand = ops[:i] + ops[i + 1:]
+            budget -= 1
             if cand and still_fails({"ops": cand}, key):
                 ops = cand
                 changed = True
@@ -987,6 +1043,14 @@ def run(ctx):
         "atan2 / cos / sin / cmath.polar are not modelled: an angle is the pair handed to atan2; the implementation's angle "
         "is related to it through (cos, sin) computed on the Python side",
         "ambient np.seterr modes used by the generator never raise (ignore/warn/print)",
+    ]
+    ctx.notes += [
+        "not covered by theorems or correspondence: quad_area, aspect_ratio, distance_to_segment2D, solve_quadratic, "
+        "axis_rot_from_z, match_rotation, AABB.unit_cube/infinite/of_mesh, Vec.normalize/outer/random (they are in the "
+        "side-effect event table only); meshes are not exercised (of_mesh only reads mesh.vertices)",
+        "the event table is a syntactic summary (in-place operators, subscript/attribute stores, known mutating methods, "
+        "np.seterr*, out= keywords fail closed); exotic in-place forms would be missed by the table but not by the driver's "
+        "before/after comparison of every caller array, box and np.geterr()",
     ]
     ctx.regen(sys.modules[__name__])
     b = ctx.build_props(extra_targets=["theories/C12/Run.vo"])
@@ -1047,7 +1111,7 @@ def run(ctx):
     failing_progs = set()
     for idx, i, key, msg in fails:
         failing_progs.add(idx)
-        if key in reported or len(reported) >= 12:
+        if key in reported or len(reported) >= 5:
             continue
         reported.add(key)
         if ctx.known(key):
